@@ -9,6 +9,7 @@ compared build-against-build by the cross-build stream of `./check C05`.
 import ClvmProofs.Lemmas.Interp.Fastpath
 import ClvmProofs.Lemmas.Interp.MachineAgree
 import ClvmProofs.Lemmas.Interp.LiftChia
+import ClvmProofs.Lemmas.Interp.CryptoShapes
 
 namespace Clvm.Props.C05
 open Clvm Clvm.Interp Clvm.Alloc
@@ -106,5 +107,14 @@ theorem run_fastpath_irrelevant' (extra : String → Option OpFn)
     (chiaDialect_opClean _ extra (coreOps_clean _) (coreOps_wf _) hec hew opUnknown_clean opUnknown_wf F).wf hp he
 
 example : (Val.ofTree (.pair (.atom [16]) (.pair (.atom [2]) (.atom [])))).wf = true := by decide
+
+
+/-- **The dialect the crate ships** (all operators): the default build and the `no-fastpath` build give
+the same result for every run. -/
+theorem chia_fastpath_irrelevant (F fuel : Nat) (c0 : Ctr) (p env : Val) (mc : Nat)
+    (hp : p.wf = true) (he : env.wf = true) :
+    runProgram { fastpath := true } (chiaDialect { fastpath := true } cryptoExtra F) fuel c0 p env mc =
+    runProgram { fastpath := false } (chiaDialect { fastpath := false } cryptoExtra F) fuel c0 p env mc :=
+  run_fastpath_irrelevant' cryptoExtra cryptoExtra_clean cryptoExtra_wf F fuel c0 p env mc hp he
 
 end Clvm.Props.C05
